@@ -10,6 +10,12 @@ mod chrony_poller;
 mod shm_writer;
 pub mod signal;
 pub mod thread_manager;
+#[cfg(clockbound_verif)]
+pub mod verif_fault;
+#[cfg(clockbound_verif)]
+pub use chrony_poller::verif as verif_chrony_poller;
+#[cfg(clockbound_verif)]
+pub use shm_writer::verif as verif_shm_writer;
 
 use chrony_candm::reply::Tracking;
 
